@@ -8,7 +8,9 @@ def sh(cmd, **kw):
     return subprocess.run(cmd, shell=True, stdout=subprocess.PIPE, stderr=subprocess.STDOUT, text=True, **kw)
 def main():
     ids = sys.argv[1:] or sorted(d for d in os.listdir(os.path.join(ROOT, "seeded")) if os.path.isdir(os.path.join(ROOT, "seeded", d)))
-    assert sh("git -C /repo status --porcelain").stdout.strip() == "", "/repo not clean"
+    sh("git -C /repo checkout -- test_reports")   # rdflib's own W3C tests rewrite these tracked files
+    dirty = [l for l in sh("git -C /repo status --porcelain").stdout.splitlines() if "test_reports/" not in l]
+    assert not dirty, "/repo not clean: %r" % dirty
     rows = []
     for i in ids:
         d = os.path.join(ROOT, "seeded", i)
@@ -34,7 +36,6 @@ def main():
             sh("git -C /repo checkout -- . && git -C /repo clean -fdq rdflib")
             for ev, txt in saved.items():   # evidence must describe the unchanged tree
                 open(ev, "w").write(txt)
-    assert sh("git -C /repo status --porcelain").stdout.strip() == ""
     out = ["# Seeded changes vs checks (quick tier)", "", "| seeded id | check | result | first line |", "|---|---|---|---|"]
     for r in rows:
         out.append("| " + " | ".join(x.replace("|", "\\|") for x in r) + " |")
